@@ -259,6 +259,43 @@ func c18tls(c *Ctx) {
 		})
 		r.Check("C18.verify", shortFn(clone), "fresh-config-per-dial", clone.Pos(), ok && n >= 2, why)
 	}
+	// who writes the TLS configuration: apart from defaulting ServerName the library leaves every field as the
+	// application set it (a session cache, root set, verification callback or skip flag installed by the library
+	// changes what the certificate is verified against, or whether it is verified at all on a resumed session)
+	{
+		neutral := map[string]bool{"ServerName": true, "NextProtos": true}
+		nSN := 0
+		for _, fn := range c.P.FuncList {
+			for _, b := range fn.Blocks {
+				for _, in := range b.Instrs {
+					st, isSt := in.(*ssa.Store)
+					if !isSt {
+						continue
+					}
+					fa, isFA := st.Addr.(*ssa.FieldAddr)
+					if !isFA {
+						continue
+					}
+					pt, isP := fa.X.Type().Underlying().(*types.Pointer)
+					if !isP {
+						continue
+					}
+					nt, isN := pt.Elem().(*types.Named)
+					if !isN || nt.Obj().Pkg() == nil || nt.Obj().Pkg().Path() != "crypto/tls" || nt.Obj().Name() != "Config" {
+						continue
+					}
+					f := fieldOf(fa)
+					if f.Name() == "ServerName" {
+						nSN++
+					}
+					r.Check("C18.verify", shortFn(fn), "tls-config-field-written:"+f.Name(), st.Pos(), neutral[f.Name()], "the library sets tls.Config."+f.Name()+" on the configuration used for the handshake: only ServerName (defaulted from the URL host) may differ from what the application configured; a library-installed "+f.Name()+" changes how, or whether, the server certificate is verified")
+				}
+			}
+		}
+		if nSN < 2 {
+			r.Fail("C18.verify", "package", "tls-config-field-written:floor", clone.Pos(), "fewer than the 2 known ServerName defaulting sites were found")
+		}
+	}
 	// doHandshake
 	{
 		ok, why := true, "nil only after HandshakeContext == nil and (InsecureSkipVerify or VerifyHostname(cfg.ServerName) == nil)"
